@@ -90,18 +90,26 @@ def x_hist(ctx, case):
                 now = H.TIMES[spec["t1"]]
             tests.append({"spec": spec, "t_start": t_start, "t_end": now, "tags": frozenset(cur)})
     # ---- stream automaton ---------------------------------------------------------------------
-    by_test = {}
-    order = []
+    # split the stream into per-test segments: from an 'inprogress' event to the final status of
+    # that id (the same id may be reported several times in one run)
+    segments = {}
+    open_seg = {}
     for e in slog.of("status"):
-        tid = e.payload["test_id"]
-        if tid not in by_test:
-            by_test[tid] = []
-            order.append(tid)
-        by_test[tid].append(e.payload)
+        p = e.payload
+        tid = p["test_id"]
+        if p["test_status"] == "inprogress" or tid not in open_seg:
+            open_seg[tid] = []
+            segments.setdefault(tid, []).append(open_seg[tid])
+        open_seg[tid].append(p)
+        if p["test_status"] in FINALS:
+            open_seg.pop(tid, None)
     ids = [t["spec"]["id"] for t in tests]
+    occurrence = {}
     for t in tests:
         spec = t["spec"]
-        evs = by_test.get(spec["id"], [])
+        k = occurrence.get(spec["id"], 0)
+        occurrence[spec["id"]] = k + 1
+        evs = (segments.get(spec["id"], []) + [[]] * (k + 1))[k]
         ok = bool(evs) and evs[0]["test_status"] == "inprogress" and evs[0]["file_name"] is None
         if ok and t["t_start"] is not None:
             ok = evs[0]["timestamp"] == t["t_start"]
@@ -220,9 +228,14 @@ def rand_detail(rng, name):
             chunks.append("")
         elif t[0] == "text" and "charset" in t[2]:
             chunks.append(rng.choice(["abc", "\xe9t\xe9", "x\ny", "☃"]).encode("utf8").hex())
+            if rng.random() < 0.4 and len(chunks[-1]) >= 4:
+                # cut inside a multi-byte character: valid as a whole, not chunk by chunk
+                whole = bytes.fromhex(chunks.pop())
+                cut = rng.randint(1, len(whole) - 1)
+                chunks += [whole[:cut].hex(), whole[cut:].hex()]
         else:
             chunks.append(bytes(rng.randrange(256) for _ in range(rng.randint(1, 4))).hex())
-    if n >= 2 and rng.random() < 0.3:
+    if n >= 2 and rng.random() < 0.3 and not (t[0] == "text" and "charset" in t[2]):
         chunks[-1] = chunks[0]  # the last chunk equals an earlier one
     return {"name": name, "chunks": chunks, "type": t}
 
@@ -240,7 +253,8 @@ def rand_history(rng):
         outcome = rng.choice(H.OUTCOMES)
         forms = {"addSuccess": ["none", "details"], "addSkip": ["reason", "details"],
                  "addUnexpectedSuccess": ["none", "details"]}.get(outcome, ["exc", "details"])
-        spec = {"id": rng.choice(["t%d", "t\xe9%d", "mod.T.test %d"]) % k, "outcome": outcome,
+        spec = {"id": rng.choice(["t%d", "t\xe9%d", "mod.T.test %d"]) % (k if rng.random() < 0.85 else max(1, k - 1)),
+                "outcome": outcome,
                 "form": rng.choice(forms), "kind": rng.choice(["placeholder", "testcase"])}
         if spec["form"] == "details":
             spec["details"] = [rand_detail(rng, n) for n in rng.sample(NAMES, rng.randint(0, 4))]
